@@ -56,8 +56,9 @@ register(
               "C05_queue_in_order", "C05_frame_in_order", "C05_enqueue_goes_to_queue", "C05_results", "C05_peek_take",
               "C05_reachable_runN", "C08_never_stuck")],
     suites=[q_suite("queue", 300, 8000,
-                    [V("single", 0, 0, 0, 0), V("multi", 1, 1, 1, 0)],
-                    [V("single", 0, 0, 0, 0), V("multi", 1, 1, 1, 0), V("spin", 0, 1, 0, 0), V("single", 1, 0, 1, 0, std="c++11")],
+                    [V("single", 0, 0, 0, 0), V("checked", 1, 1, 1, 0), V("single", 1, 0, 0, 0, getevent=1)],
+                    [V("single", 0, 0, 0, 0), V("multi", 1, 1, 1, 0), V("spin", 0, 1, 0, 0), V("single", 1, 0, 1, 0, std="c++11"),
+                     V("checked", 1, 1, 1, 0), V("single", 1, 0, 0, 0, getevent=1), V("checked", 0, 1, 0, 0, getevent=1, cxx="clang++-14")],
                     rule="random single-threaded queue histories (enqueue bursts, process/processOne/processIf/processUntil with scripted predicate verdicts, "
                          "peek/take/clear between partial processing, listeners/predicates/filters that enqueue, process, unlisten and observe emptyQueue), "
                          "<=45 (quick) / <=120 (thorough) top-level commands; distinct = distinct canonical output; non-trivial = >=2 listener calls, >=3 enqueues and at least one recycled slot",
@@ -70,11 +71,11 @@ register(
     fragments=["DispatchFrag"],
     theorems=[],
     suites=[q_suite("dispatch", 300, 6000,
-                    [V("single", 1, 1, 0, 0), V("multi", 0, 0, 1, 0), V("single", 1, 1, 0, 0, cxx="clang++-14"),
-                     V("single", 0, 0, 0, 0, getevent=1), V("single", 1, 1, 0, 0, getevent=1, mapk=1)],
+                    [V("single", 1, 1, 0, 0), V("checked", 0, 0, 1, 0), V("single", 1, 1, 0, 0, cxx="clang++-14"),
+                     V("single", 0, 0, 0, 0, getevent=1), V("checked", 1, 1, 0, 0, getevent=1, mapk=1)],
                     [V("single", 1, 1, 0, 0), V("multi", 0, 0, 1, 0), V("single", 1, 1, 0, 0, cxx="clang++-14"),
                      V("single", 1, 1, 1, 0, opt="-O2"), V("multi", 1, 0, 0, 0, std="c++11"), V("spin", 0, 1, 0, 0, cxx="clang++-14", opt="-O2"),
-                     V("single", 0, 0, 0, 0, getevent=1), V("single", 1, 1, 0, 0, getevent=1, mapk=1),
+                     V("single", 0, 0, 0, 0, getevent=1), V("checked", 1, 1, 0, 0, getevent=1, mapk=1), V("checked", 0, 0, 1, 0),
                      V("multi", 1, 0, 0, 0, getevent=1, cxx="clang++-14"), V("single", 0, 1, 1, 0, getevent=1, std="c++11")],
                     rule="random listener-management / dispatch histories over 1-4 event keys (int keys and std::string keys longer than SSO), "
                          "both argument-passing forms (event included in the prototype or not; auto-detected, and explicit ArgumentPassingInclude/ExcludeEvent "
